@@ -9,7 +9,7 @@ Import ListNotations.
 Local Open Scope Z_scope.
 
 (** the validator passes the lists of a StakeAuthorization *)
-Definition admitted (al dl : list N) (val : N) : Prop :=
+Definition val_admissible (al dl : list N) (val : N) : Prop :=
   mem val dl = false /\ (al = [] \/ mem val al = true).
 
 Lemma get_auth_some now G k g :
@@ -63,13 +63,13 @@ Qed.
 
 Lemma stake_accept_some lim al dl val amt r :
   stake_accept lim al dl val amt = Some r <->
-  admitted al dl val /\
+  val_admissible al dl val /\
   match lim with
   | None => r = RUpdate (AStake None al dl)
   | Some l => amt <= l /\ (amt = l -> r = RDelete) /\ (amt < l -> r = RUpdate (AStake (Some (l - amt)) al dl))
   end.
 Proof.
-  unfold stake_accept, admitted.
+  unfold stake_accept, val_admissible.
   destruct (mem val dl) eqn:Ed; [split; [discriminate|intros [[? _] _]; discriminate]|].
   assert (Hok : negb (is_nil al) && negb (mem val al) = false <-> (al = [] \/ mem val al = true)).
   { destruct al as [|a0 al0]; [simpl; tauto|]. change (negb (is_nil (a0 :: al0))) with true.
@@ -92,7 +92,7 @@ Qed.
 
 Lemma stake_accept_none_iff lim al dl val amt :
   match lim with Some l => amt <= l | None => True end ->
-  (stake_accept lim al dl val amt = None <-> ~ admitted al dl val).
+  (stake_accept lim al dl val amt = None <-> ~ val_admissible al dl val).
 Proof.
   intros Hl. split.
   - intros H [A1 A2].
@@ -113,7 +113,7 @@ Theorem stake_spend_ok impl now G k val amt ok G' eff :
   exists lim al dl exp,
     G !! k = Some (mkgrant (AStake lim al dl) exp) /\
     expired now (mkgrant (AStake lim al dl) exp) = false /\
-    admitted al dl val /\ ok = true /\ eff = true /\
+    val_admissible al dl val /\ ok = true /\ eff = true /\
     match lim with
     | None => G' = G
     | Some l => amt <= l /\ (amt = l -> G' = delete k G) /\
@@ -205,7 +205,7 @@ Lemma spend_update_cannot now G k val amt :
   exists lim al dl exp,
     G !! k = Some (mkgrant (AStake lim al dl) exp) /\ expired now (mkgrant (AStake lim al dl) exp) = false /\
     match lim with Some l => amt <= l | None => True end /\
-    (~ admitted al dl val \/ (exp = Some now /\ lim <> Some amt)).
+    (~ val_admissible al dl val \/ (exp = Some now /\ lim <> Some amt)).
 Proof.
   unfold stake_spend_update. split.
   - destruct (check_allowance now G k amt) as [[[[lim al] dl] exp]|] eqn:Ec; [|discriminate].
@@ -249,7 +249,7 @@ Proof.
 Qed.
 
 Theorem spec_validator_not_admitted_rejected now G k val amt ok lim al dl exp :
-  G !! k = Some (mkgrant (AStake lim al dl) exp) -> ~ admitted al dl val ->
+  G !! k = Some (mkgrant (AStake lim al dl) exp) -> ~ val_admissible al dl val ->
   stake_spend false now G k val amt ok = (G, false, SErr).
 Proof.
   intros HG Na. unfold stake_spend, stake_spend_update.
@@ -491,3 +491,240 @@ Example allowance_history_ex :
 Proof.
   split; [repeat constructor; simpl; intros; lia|]. split; vm_compute; auto.
 Qed.
+
+(** * ICS-20: TransferAuthorization.Accept *)
+Lemma amount_of_has d cs : amount_of d cs <> 0 -> has_denom d cs = true.
+Proof.
+  induction cs as [|[d' x] r IH]; simpl; [congruence|]. destruct (N.eqb d d'); simpl; auto.
+Qed.
+
+Lemma amount_of_coins_set_same d x cs : has_denom d cs = true -> 0 < x -> amount_of d (coins_set d x cs) = x.
+Proof.
+  intros Hh Hx. induction cs as [|[d' y] r IH]; simpl in *; [discriminate|].
+  destruct (N.eqb d d') eqn:E.
+  - assert (x <=? 0 = false) as -> by (apply Z.leb_gt; lia). simpl. rewrite E. reflexivity.
+  - simpl. rewrite E. apply IH. exact Hh.
+Qed.
+
+Lemma amount_of_coins_set_other d d' x cs : d' <> d -> amount_of d' (coins_set d x cs) = amount_of d' cs.
+Proof.
+  intros Hne. induction cs as [|[d0 y] r IH]; simpl; [reflexivity|].
+  destruct (N.eqb d d0) eqn:E.
+  - apply N.eqb_eq in E; subst d0. assert (N.eqb d' d = false) as Hf by (apply N.eqb_neq; exact Hne).
+    destruct (x <=? 0); simpl; rewrite ?Hf; reflexivity.
+  - simpl. destruct (N.eqb d' d0); [reflexivity|apply IH].
+Qed.
+
+Definition recv_ok (a : alloc) (recv : N) : Prop := a_allow a = [] \/ mem recv (a_allow a) = true.
+
+Lemma transfer_accept_from_spec ch d amt recv : forall allocs pre r,
+  transfer_accept_from pre allocs ch d amt recv = Some r ->
+  exists a rest1 rest2,
+    allocs = rest1 ++ a :: rest2 /\ Forall (fun x => N.eqb (a_chan x) ch = false) rest1 /\ a_chan a = ch /\
+    recv_ok a recv /\
+    let L := amount_of d (a_limits a) in
+    (L = MAXU /\ r = TKeep) \/
+    (L <> MAXU /\ amt <= L /\
+     let left := coins_set d (L - amt) (a_limits a) in
+     (left = [] -> r = if is_nil (pre ++ rest1 ++ rest2) then TDelete else TUpdate (pre ++ rest1 ++ rest2)) /\
+     (left <> [] -> r = TUpdate (pre ++ rest1 ++ mkalloc ch left (a_allow a) :: rest2))).
+Proof.
+  induction allocs as [|a0 rest IH]; intros pre r; simpl; [discriminate|].
+  destruct (N.eqb (a_chan a0) ch) eqn:Ech.
+  - destruct (negb (is_nil (a_allow a0)) && negb (mem recv (a_allow a0))) eqn:Eal; [discriminate|].
+    assert (Hrecv : recv_ok a0 recv).
+    { unfold recv_ok. destruct (a_allow a0) as [|x xs]; [left; reflexivity|]. right.
+      change (negb (is_nil (x :: xs))) with true in Eal. destruct (mem recv (x :: xs)); [reflexivity|discriminate Eal]. }
+    apply N.eqb_eq in Ech.
+    intros H. exists a0, [], rest. simpl. repeat split; auto.
+    destruct (amount_of d (a_limits a0) =? MAXU) eqn:Em.
+    + apply Z.eqb_eq in Em. left. inversion H. auto.
+    + apply Z.eqb_neq in Em. right. split; [exact Em|].
+      destruct (amount_of d (a_limits a0) <? amt) eqn:El; [discriminate|]. apply Z.ltb_ge in El. split; [exact El|].
+      destruct (coins_set d (amount_of d (a_limits a0) - amt) (a_limits a0)) as [|c0 cs] eqn:Ec; simpl in H.
+      * split; [intros _|congruence]. destruct (is_nil (pre ++ rest)); inversion H; reflexivity.
+      * split; [discriminate|]. intros _. inversion H. subst ch. reflexivity.
+  - intros H. apply IH in H as (a & rest1 & rest2 & -> & Hf & Hch & Hr & Hcase).
+    exists a, (a0 :: rest1), rest2. split; [reflexivity|]. split; [constructor; assumption|]. split; [exact Hch|]. split; [exact Hr|].
+    simpl in *. rewrite <- !app_assoc in Hcase. simpl in Hcase. exact Hcase.
+Qed.
+
+Lemma find_alloc_split ch a rest1 rest2 :
+  Forall (fun x => N.eqb (a_chan x) ch = false) rest1 -> a_chan a = ch -> find_alloc (rest1 ++ a :: rest2) ch = Some a.
+Proof.
+  intros Hf Hch. induction rest1 as [|x r IH]; simpl.
+  - subst ch. rewrite N.eqb_refl. reflexivity.
+  - inversion Hf; subst. rewrite H1. apply IH. assumption.
+Qed.
+
+Lemma find_alloc_none_split ch rest1 rest2 :
+  Forall (fun x => N.eqb (a_chan x) ch = false) rest1 -> Forall (fun x => N.eqb (a_chan x) ch = false) rest2 ->
+  find_alloc (rest1 ++ rest2) ch = None.
+Proof.
+  intros H1 H2. induction rest1 as [|x r IH]; simpl.
+  - induction rest2 as [|y r2 IH2]; simpl; [reflexivity|]. inversion H2; subst. rewrite H3. apply IH2. assumption.
+  - inversion H1; subst. rewrite H3. apply IH. assumption.
+Qed.
+
+(** the limit the first allocation of channel [ch] leaves for denomination [d] (0: nothing) *)
+Definition remaining_transfer (allocs : list alloc) (ch d : N) : Z :=
+  match find_alloc allocs ch with Some a => amount_of d (a_limits a) | None => 0 end.
+
+(** no second allocation for the same channel (TransferAuthorization.ValidateBasic) *)
+Lemma nodup_chans_after seen a rest1 rest2 :
+  nodup_chans seen (rest1 ++ a :: rest2) = true -> Forall (fun x => N.eqb (a_chan x) (a_chan a) = false) rest2.
+Proof.
+  revert seen. induction rest1 as [|x r IH]; intros seen; simpl.
+  - intros H. apply andb_true_iff in H as [_ H].
+    assert (G : forall l seen', mem (a_chan a) seen' = true -> nodup_chans seen' l = true ->
+                                Forall (fun x => N.eqb (a_chan x) (a_chan a) = false) l).
+    { induction l as [|y l IHl]; intros seen' Hm Hn; [constructor|]. simpl in Hn. apply andb_true_iff in Hn as [Hy Hn].
+      constructor.
+      - destruct (N.eqb (a_chan y) (a_chan a)) eqn:E; [|reflexivity]. apply N.eqb_eq in E. rewrite E in Hy.
+        rewrite Hm in Hy. discriminate.
+      - apply (IHl (a_chan y :: seen')); [|exact Hn]. simpl. rewrite Hm. apply orb_true_r. }
+    apply (G rest2 (a_chan a :: seen)); [|exact H]. simpl. rewrite N.eqb_refl. reflexivity.
+  - intros H. apply andb_true_iff in H as [_ H]. eapply IH. exact H.
+Qed.
+
+Lemma sorted_amount_zero cs : forall p d, sorted_pos (Some p) cs = true -> (d <= p)%N -> amount_of d cs = 0.
+Proof.
+  induction cs as [|[d0 x] r IH]; intros p d Hs Hd; simpl; [reflexivity|].
+  simpl in Hs. apply andb_true_iff in Hs as [Hs1 Hs2]. apply andb_true_iff in Hs1 as [_ Hlt]. apply N.ltb_lt in Hlt.
+  destruct (N.eqb d d0) eqn:E; [apply N.eqb_eq in E; lia|]. apply (IH d0); [exact Hs2|lia].
+Qed.
+
+Lemma coins_set_drop d cs : forall prev, sorted_pos prev cs = true -> amount_of d (coins_set d 0 cs) = 0.
+Proof.
+  induction cs as [|[d0 y] r IH]; intros prev Hs; simpl; [reflexivity|].
+  simpl in Hs. apply andb_true_iff in Hs as [_ Hs2].
+  destruct (N.eqb d d0) eqn:E.
+  - apply N.eqb_eq in E; subst d0. simpl. apply (sorted_amount_zero r d d); [exact Hs2|lia].
+  - simpl. rewrite E. apply (IH (Some d0)). exact Hs2.
+Qed.
+
+(** an accepted transfer: the channel has an allocation that admits the receiver;
+    an unbounded limit is left alone, a bounded one covers the amount and goes
+    down by exactly the amount (other denominations untouched; an allocation
+    whose coins are all used up is removed) *)
+Theorem transfer_accept_exact allocs ch d amt recv r :
+  nodup_chans [] allocs = true -> Forall (fun a => sorted_pos None (a_limits a) = true) allocs -> 0 < amt ->
+  transfer_accept allocs ch d amt recv = Some r ->
+  exists a, find_alloc allocs ch = Some a /\ recv_ok a recv /\
+    let L := amount_of d (a_limits a) in
+    (L = MAXU /\ r = TKeep) \/
+    (L <> MAXU /\ amt <= L /\
+     exists al', (r = TUpdate al' \/ (r = TDelete /\ al' = [])) /\
+       remaining_transfer al' ch d = L - amt /\
+       (forall d', d' <> d -> remaining_transfer al' ch d' =
+                              if decide (coins_set d (L - amt) (a_limits a) = []) then 0 else amount_of d' (a_limits a))).
+Proof.
+  intros Hnd Hsorted Hamt H. unfold transfer_accept in H.
+  apply transfer_accept_from_spec in H as (a & rest1 & rest2 & -> & Hf & Hch & Hr & Hcase).
+  assert (Hsa : sorted_pos None (a_limits a) = true).
+  { apply Forall_app in Hsorted as [_ Hs2]. inversion Hs2; assumption. }
+  exists a. split; [apply find_alloc_split; assumption|]. split; [exact Hr|].
+  simpl in *. destruct Hcase as [[HL ->]|(HL & Hle & Hempty & Hnon)]; [left; auto|right].
+  split; [exact HL|]. split; [exact Hle|].
+  pose proof (nodup_chans_after [] a rest1 rest2 Hnd) as Hf2. rewrite Hch in Hf2.
+  destruct (coins_set d (amount_of d (a_limits a) - amt) (a_limits a)) as [|c0 cs] eqn:Ec.
+  - specialize (Hempty eq_refl). exists (rest1 ++ rest2). split.
+    + destruct (is_nil (rest1 ++ rest2)) eqn:En; [right|left; exact Hempty].
+      split; [exact Hempty|]. destruct (rest1 ++ rest2); [reflexivity|discriminate].
+    + unfold remaining_transfer. rewrite (find_alloc_none_split ch rest1 rest2 Hf Hf2).
+      split.
+      * destruct (Z.eq_dec (amount_of d (a_limits a) - amt) 0) as [E|E]; [lia|].
+        exfalso. assert (Hpos : 0 < amount_of d (a_limits a) - amt) by lia.
+        assert (Hh : has_denom d (a_limits a) = true) by (apply amount_of_has; lia).
+        pose proof (amount_of_coins_set_same d _ (a_limits a) Hh Hpos) as Hx. rewrite Ec in Hx. simpl in Hx. lia.
+      * intros d' Hd'. destruct (decide _); [reflexivity|congruence].
+  - assert (Hne : c0 :: cs <> []) by discriminate. specialize (Hnon Hne).
+    exists (rest1 ++ mkalloc ch (c0 :: cs) (a_allow a) :: rest2). split; [left; exact Hnon|].
+    unfold remaining_transfer. rewrite (find_alloc_split ch (mkalloc ch (c0 :: cs) (a_allow a)) rest1 rest2 Hf eq_refl). simpl a_limits.
+    split.
+    + destruct (Z.eq_dec (amount_of d (a_limits a) - amt) 0) as [E|E].
+      * rewrite <- Ec. rewrite E. apply (coins_set_drop d (a_limits a) None). exact Hsa.
+      * assert (Hpos : 0 < amount_of d (a_limits a) - amt) by lia.
+        assert (Hh : has_denom d (a_limits a) = true) by (apply amount_of_has; lia).
+        rewrite <- Ec. apply amount_of_coins_set_same; assumption.
+    + intros d' Hd'. destruct (decide _) as [E|_]; [discriminate E|]. rewrite <- Ec. apply amount_of_coins_set_other. exact Hd'.
+Qed.
+
+(** refusals *)
+Theorem transfer_no_allocation_rejected allocs ch d amt recv :
+  find_alloc allocs ch = None -> transfer_accept allocs ch d amt recv = None.
+Proof.
+  intros H. destruct (transfer_accept allocs ch d amt recv) as [r|] eqn:E; [|reflexivity].
+  unfold transfer_accept in E. apply transfer_accept_from_spec in E as (a & rest1 & rest2 & -> & Hf & Hch & _).
+  rewrite (find_alloc_split ch a rest1 rest2 Hf Hch) in H. discriminate.
+Qed.
+
+Theorem transfer_receiver_or_amount_rejected allocs ch d amt recv a :
+  find_alloc allocs ch = Some a ->
+  (~ recv_ok a recv \/ (amount_of d (a_limits a) <> MAXU /\ amount_of d (a_limits a) < amt)) ->
+  transfer_accept allocs ch d amt recv = None.
+Proof.
+  intros Hfa Hbad. destruct (transfer_accept allocs ch d amt recv) as [r|] eqn:E; [|reflexivity].
+  unfold transfer_accept in E. apply transfer_accept_from_spec in E as (a' & rest1 & rest2 & -> & Hf & Hch & Hr & Hcase).
+  rewrite (find_alloc_split ch a' rest1 rest2 Hf Hch) in Hfa. inversion Hfa; subst a'.
+  destruct Hbad as [Hb|[Hb1 Hb2]]; [contradiction|].
+  simpl in Hcase. destruct Hcase as [[HL _]|(HL & Hle & _)]; [contradiction|lia].
+Qed.
+
+(** the grant store after an accepted ICS-20 spend *)
+Theorem transfer_spend_ok impl now G k ch d amt recv ok G' eff :
+  transfer_spend impl now G k ch d amt recv ok = (G', eff, SOk) ->
+  exists allocs exp r,
+    G !! k = Some (mkgrant (ATransfer allocs) exp) /\ expired now (mkgrant (ATransfer allocs) exp) = false /\
+    transfer_accept allocs ch d amt recv = Some r /\ ok = true /\ eff = true /\
+    match r with
+    | TKeep => G' = G
+    | TDelete => G' = delete k G
+    | TUpdate al => G' = <[k := mkgrant (ATransfer al) exp]> G
+    end.
+Proof.
+  unfold transfer_spend, transfer_spend_update.
+  destruct (get_auth now G k) as [[a exp]|] eqn:Eg; [|discriminate].
+  apply get_auth_some in Eg as [E1 E2]. destruct a as [|allocs|]; try discriminate.
+  destruct (transfer_accept allocs ch d amt recv) as [r|] eqn:Ea; [|discriminate].
+  intros H. exists allocs, exp, r.
+  assert (Hx : (match r with TKeep => Some G | TDelete => delete_grant G k | TUpdate al => save_grant now G k (ATransfer al) exp end) = Some G'
+               /\ ok = true /\ eff = true).
+  { destruct r; destruct impl, ok;
+      try (destruct (delete_grant G k)); try (destruct (save_grant now G k _ exp)); inversion H; subst; auto. }
+  destruct Hx as (Hu & -> & ->). repeat split; auto.
+  destruct r.
+  - unfold delete_grant in Hu. rewrite E1 in Hu. inversion Hu; reflexivity.
+  - unfold save_grant in Hu. destruct exp as [e|]; [destruct (e <=? now); [discriminate|]|]; inversion Hu; reflexivity.
+  - inversion Hu; reflexivity.
+Qed.
+
+Theorem transfer_expired_or_absent_unusable impl now G k ch d amt recv ok :
+  (G !! k = None \/ exists g, G !! k = Some g /\ (expired now g = true \/ forall al, g_auth g <> ATransfer al)) ->
+  transfer_spend impl now G k ch d amt recv ok = (G, false, SErr).
+Proof.
+  intros H. unfold transfer_spend, transfer_spend_update.
+  destruct (get_auth now G k) as [[a exp]|] eqn:Eg.
+  - apply get_auth_some in Eg as [E1 E2]. destruct H as [H|(g & Hg & [He|Ht])]; [congruence| |].
+    + rewrite E1 in Hg. inversion Hg; subst. congruence.
+    + rewrite E1 in Hg. inversion Hg; subst. destruct a; try reflexivity. exfalso. apply (Ht allocs). reflexivity.
+  - reflexivity.
+Qed.
+
+(** the ICS-20 flow accepts before it transfers; what is left of K10 there is the
+    grant that expires in this very block and cannot be re-saved *)
+Theorem transfer_grant_expiring_now_refuted :
+  exists now G k, transfer_spend true now G k 0%N 0%N 300 0%N true = (G, true, SErr) /\
+                  transfer_spend false now G k 0%N 0%N 300 0%N true = (G, false, SErr).
+Proof.
+  exists 1000, {[ (0%N, 2%N, MTransfer) := mkgrant (ATransfer [mkalloc 0%N [(0%N, 1000)] []]) (Some 1000) ]}, (0%N, 2%N, MTransfer).
+  split; vm_compute; reflexivity.
+Qed.
+
+Example transfer_accept_ex :
+  transfer_accept [mkalloc 0%N [(0%N, 1000); (1%N, 50)] [0%N; 1%N]] 0%N 0%N 300 1%N
+  = Some (TUpdate [mkalloc 0%N [(0%N, 700); (1%N, 50)] [0%N; 1%N]]) /\
+  transfer_accept [mkalloc 0%N [(0%N, 300)] []] 0%N 0%N 300 1%N = Some TDelete /\
+  transfer_accept [mkalloc 0%N [(0%N, MAXU)] []] 0%N 0%N 300 1%N = Some TKeep /\
+  transfer_accept [mkalloc 0%N [(0%N, 1000)] [2%N]] 0%N 0%N 300 1%N = None.
+Proof. vm_compute. repeat split. Qed.
